@@ -28,10 +28,27 @@ def key_fn(case, obs, verdict):
         return "ammo-file:%s:%s" % (f[1], what)
     if f[0] == "phout":
         return "phout-aggregator:recycled-sample-codes"
+    if f[0] == "phoutq":
+        # fewer / more lines than fired requests, or lines that are not the requests' own
+        import re
+        m = re.search(r"\(n=(\d+) lines of (\d+)\)", verdict)
+        lost = bool(m) and m.group(1) != m.group(2)
+        return "phout-aggregator:small-queue:%s" % ("not-one-line-per-request" if lost else "line-fields")
+    if f[0] == "scfile":
+        if obs == "providererr" or "refuse" in verdict:
+            return "scenario-file:%s:provider-acceptance" % f[1]
+        n_obs = obs.split(" ")[0]
+        n_want = verdict.replace("BAD:expected ", "").split(" ")[0]
+        ot = [w.split(":")[0] for w in obs.split(" ") if w.count(":") == 2]
+        wt = [w.split(":")[0] for w in verdict.replace("BAD:expected ", "").split(" ") if w.count(":") == 2]
+        what = ("count-%s-want-%s" % (n_obs, n_want)) if n_obs != n_want else ("step-tag" if ot != wt else "sample-fields")
+        if " late=" in obs and not obs.endswith(" late=0"):
+            what = "written-after-report"
+        return "scenario-file:%s:%s" % (f[1], what)
     if f[0] in ("hscen", "gscen", "gshoot"):
         n_obs = obs.split(" ")[0]
         n_want = verdict.replace("BAD:expected ", "").split(" ")[0]
-        kinds = ",".join(sorted({st.split(":")[-1].rstrip("0123456789") for st in f[2].split(",")})) if len(f) > 2 else ""
+        kinds = ",".join(sorted({st.split(":")[1].rstrip("0123456789") for st in f[2].split(",") if ":" in st})) if len(f) > 2 else ""
         what = ("count-%s-want-%s" % (n_obs, n_want)) if n_obs != n_want else "sample-fields"
         if " late=" in obs and not obs.endswith(" late=0"):
             what = "written-after-report"
@@ -47,8 +64,8 @@ def run(ctx):
               "with a fault or invalid ammo, or with auto-tag on a path of >=2 bytes; scenario cases with >=2 steps; every gshoot case; "
               "distinct = distinct case lines"),
         key_fn=key_fn,
-        translators=[("grpcstatus", "GrpcStatusGen.v"), ("consts", "ConstGen.v"), ("gofn-httpgun", "GoFnHttpgunGen.v")],
-        bridge_files=["Gen/GrpcStatus_bridge.v", "Gen/Const_bridge.v", "Gen/GoFnHttpgun_bridge.v"],
+        translators=[("grpcstatus", "GrpcStatusGen.v"), ("consts", "ConstGen.v"), ("gofn-httpgun", "GoFnHttpgunGen.v"), ("pooldeps", "PoolDepsGen.v")],
+        bridge_files=["Gen/GrpcStatus_bridge.v", "Gen/Const_bridge.v", "Gen/GoFnHttpgun_bridge.v", "Gen/PhoutReport_bridge.v"],
         trusted=[
             "translator harness/cmd/translate (grpcstatus: go/ast over ConvertGrpcStatus + markdown table; consts: values compiled from /repo)",
             "extraction: ExtrOcamlBasic only; OCaml driver ocaml/C10/main.ml + ocaml/common/conv.ml (zarith for decimal I/O)",
